@@ -3,20 +3,28 @@ def H(name, clause, kind="complete", tier="quick", timeout=600, replay=True, cov
     d.update(kw)
     return d
 
+def B(name, clause, bound, covers=0, tier="quick", timeout=900):
+    # bucket-level harness (module __verif_c05b::bk): needs kani::stub => no concrete replay
+    return H(name, clause, kind="bounded", tier=tier, timeout=timeout, replay=False, covers=covers, bound=bound, module="__verif_c05b", sub="bk")
+
 BUCKET = "metrics-util/src/storage/bucket.rs"
 
 PLAN = {
     "property": "C05",
     "level": "proof",
     "manifest": {
-        "technique": "Kani/CBMC on the real private Block<T> (harness module appended to bucket.rs): full-domain contracts for len / is_quiesced, inductive push step and Drop over all 65 quiescent states, rely/guarantee stubs on fetch_add / fetch_or for push; BLOCK-LEVEL CLAUSES ONLY",
+        "technique": "Kani/CBMC on the real private Block<T> (harness module appended to bucket.rs): full-domain contracts for len / is_quiesced, inductive push step and Drop over all 65 quiescent states, rely/guarantee stubs on fetch_add / fetch_or for push. "
+                     "Bucket level (second appended module, listed as BOUNDED, never counted as proved): the real AtomicBucket::push / is_empty / data / data_with / clear_with run sequentially (n <= 2 pushes) and, one method at a time, on hand-built intermediate states a pre-empted concurrent pusher leaves behind (straggler in a handed-over block, in-flight slot in the tail block, full tail block); crossbeam's pin / tagged-pointer split / Backoff::snooze replaced by environment stubs",
         "text": "Claimed for the block-level clauses only. On the real Block<T>: len is the longest published prefix for all 2^64 read bitmaps (nothing below len is unpublished => with the block invariant nothing is observed before it is fully written); is_quiesced is true exactly when every claimed slot is published, for all (write, read) words satisfying the invariant; push claims its index once, hands the value back untouched when the block is full, writes its slot strictly before publishing exactly its own bit (no shift overflow), touches no other slot and never drops the value, under arbitrary interference of other pushers modelled by stubs (rely/guarantee); from any quiescent state k in 0..=64 a push yields data() == old data ++ [value] (push order, by induction from Block::new()); Drop of a block drops exactly the written slots once each. "
-                "NOT DECIDED by this technique: every interleaving clause at bucket level -- push racing clear_with, the block-full hand-over (CAS of a fresh block into tail, then linking next), snapshot readers racing clearers, and epoch-based reclamation. No AtomicBucket method is reachable (Kani cannot compile crossbeam_epoch::pin()); the 'no value lost / duplicated whatever the interleaving of pushers, readers and clearers' part of the statement is outside the claim.",
-        "note": "Bucket-level interleaving clauses (push vs clear_with, block hand-over, epoch reclamation, is_empty/data_with vs concurrent writers) are NOT decided: AtomicBucket is unreachable for Kani (ICE in crossbeam_epoch::pin) and Verus would need a rewrite onto permission-typed atomics (a model, not the code). Assumes SC atomics, atomic RMWs (orderings unchecked), T instantiated with a 1-byte drop-counting token; sequences bounded to 3 pushes are listed as bounded, not proved.",
+                "Bucket level, BOUNDED evidence only (each harness = ONE designed state, ONE real method call; no interleaving is explored): sequentially (n <= 2) data_with / data / clear_with hand out exactly the pushed values in push order, clear hands them out once, destroys them once, a second clear nothing; on a handed-over block whose last slot is claimed but unpublished, and on a tail block with an in-flight middle slot, data_with and clear_with never hand a block out while a claimed slot is unpublished and, once the straggler finishes, hand out every claimed slot; push on a full tail installs a new block linked to the old one without losing it; is_empty is false on the hand-over states with completed pushes. "
+                "NOT DECIDED: every genuine interleaving clause -- a pusher pre-empted between loading tail and claiming a slot while clear_with detaches the chain, readers racing clearers, epoch reclamation with other pinned threads, memory orderings. The hand-over publication order is an obligation of its own (c05b_handover_publication: the fresh block must be linked to the old tail BEFORE it is compare-exchanged into tail; witness_link_window.rs shows the loss of 64 completed values with the real clear_with when it is not).",
+        "note": "Bucket-level interleaving clauses are NOT proved: Kani has no threads; the bucket harnesses each fix one intermediate state built by hand from the pusher's atomic steps and run one real method on it (listed as bounded). crossbeam_epoch::pin is stubbed (Kani ICE) by the unprotected guard, crossbeam's decompose_tag by the identity (asserting zero tag bits), Backoff::snooze by 'the stalled pusher finishes'. Assumes SC atomics, atomic RMWs (orderings unchecked), T instantiated with u8 / a 1-byte drop-counting token; sequences bounded to 3 block pushes / 2 bucket pushes are listed as bounded, not proved.",
     },
     "min_obligations": {"quick": 4, "thorough": 5},
     "assumptions": [
-        "SCOPE: only Block<T> is verified. Every interleaving clause of the statement at bucket level (AtomicBucket::push racing clear_with, block-full hand-over, data_with/is_empty racing writers, epoch reclamation of detached blocks) is NOT decided by this technique and is not claimed",
+        "SCOPE: only the Block<T> obligations are claimed as proved. The bucket-level harnesses (c05b_*) are bounded evidence: one designed state + one real AtomicBucket method each; interleavings (AtomicBucket::push racing clear_with between tail.load and the slot claim, readers racing clearers, epoch reclamation with other pinned threads) are NOT explored and not claimed",
+        "c05b_* environment stubs (crossbeam, not code under verification): crossbeam_epoch::pin() -> a Guard with null `local` (== epoch::unprotected(): deferred destructors run immediately, i.e. the schedule where no other thread is pinned); crossbeam_epoch::atomic::decompose_tag(data) -> (data, 0) with assert!(data & (ALIGN-1) == 0) (bucket.rs never tags pointers); crossbeam_utils::Backoff::snooze -> the pusher registered as stalled performs its slot write and read.fetch_or (a waiting reader is eventually served; the wait loops therefore terminate within the unwinding bound); in c05b_seq_clear / c05b_straggler_clear / c05b_inflight_tail Guard::defer_unchecked leaks its closure (the schedule where the epoch never advances); in c05b_handover_publication core::sync::atomic::Atomic::<usize>::compare_exchange is a stub that asserts the publication clause and then does compare + store on the cell (single thread: equivalent)",
+        "c05b_* intermediate states are written down by hand from the atomic steps of Block::push / AtomicBucket::push (claim = write.fetch_add, publish = read.fetch_or, hand-over = CAS tail then next.store); that these are exactly the states concurrent executions produce is argued, not checked",
         "atomics are sequentially consistent and fetch_add / fetch_or are single atomic steps (Kani has no weak-memory model; Acquire/Release orderings are not checked); hence every index is handed out by fetch_add exactly once",
         "rely of c05_push_rg: other pushers of the same block claim their indices through the same fetch_add, publish only bits of indices they claimed and write only slots they claimed; the stubs havoc `write` before the claim and `read` (minus our bit) before the publication",
         "block invariant B (read is a subset of the claimed prefix, a published slot is initialised) is established by Block::new (all zero) and preserved by push (c05_push_rg G3/G4); is_quiesced and Drop are verified under B / from quiescent states",
@@ -24,10 +32,14 @@ PLAN = {
         "generic T is instantiated with a 1-byte drop-counting token (and u8); the code under contract is parametric in T (no T-specific branches)",
         "panic = failure; unwinding not modelled",
     ],
+    "witnesses": [
+        {"match": r"c05b_handover_publication", "src": "witness_link_window.rs", "crate": "metrics-util", "file": "metrics-util/src/storage/bucket.rs"},
+    ],
     "kani": [{
         "crate": "metrics-util",
-        "parallel": 4,
-        "modules": [{"file": BUCKET, "mod": "__verif_c05", "src": "block.kani.rs"}],
+        "parallel": 6,
+        "modules": [{"file": BUCKET, "mod": "__verif_c05", "src": "block.kani.rs"},
+                    {"file": BUCKET, "mod": "__verif_c05b", "src": "bucket.kani.rs"}],
         "functions": [
             {"item": "Block::len", "file": BUCKET},
             {"item": "Block::is_quiesced", "file": BUCKET},
@@ -35,6 +47,11 @@ PLAN = {
             {"item": "Block::data", "file": BUCKET},
             {"item": "Block::new", "file": BUCKET},
             {"item": "impl Drop for Block<T>", "file": BUCKET},
+            {"item": "AtomicBucket::push", "file": BUCKET},
+            {"item": "AtomicBucket::is_empty", "file": BUCKET},
+            {"item": "AtomicBucket::data", "file": BUCKET},
+            {"item": "AtomicBucket::data_with", "file": BUCKET},
+            {"item": "AtomicBucket::clear_with", "file": BUCKET},
         ],
         "harnesses": [
             H("c05_len", "len <= BLOCK_SIZE, every bit below len set, bit len clear, == trailing_ones(read); all 2^64 bitmaps", covers=3),
@@ -49,6 +66,27 @@ PLAN = {
               kind="bounded", bound="n <= 3 pushes", covers=2),
             H("c05_push_then_drop", "n <= 3 pushed tokens are dropped exactly once each by Drop, none by push",
               kind="bounded", bound="n <= 3 pushes", covers=2),
+            # ---- bucket level (bucket.kani.rs): ONE designed state + ONE real method per harness; bounded, never counted as proved
+            B("c05b_seq_snapshot", "fresh bucket, n real pushes: is_empty <=> n == 0; data_with hands out exactly [v1..vn] (one slice, push order); a snapshot takes nothing (second data_with identical)",
+              bound="n <= 2 pushes; sequential", covers=3),
+            B("c05b_seq_clear", "fresh bucket, n real pushes: clear_with hands out exactly [v1..vn] once, tail null / is_empty / data_with empty afterwards, second clear_with hands out nothing, block scheduled for destruction once",
+              bound="n <= 2 pushes; sequential; defer_unchecked leaked", covers=3),
+            B("c05b_seq_reclaim", "value type with destructor: push never drops; clear_with hands each value out once; nothing destroyed before/while handed out; each value destroyed exactly once afterwards; second clear destroys nothing",
+              bound="n <= 2 pushes; sequential; epoch schedule = destructors run immediately", covers=2),
+            B("c05b_straggler_clear", "state A (old block full, slot 63 claimed but unpublished, behind a fresh tail with k values): clear_with never hands a block out while a claimed slot is unpublished; after the straggler finishes it hands out the k tail values then ALL 64 of the old block in push order; bucket empty afterwards",
+              bound="one designed state: k in {0,1}, old write in 64..=usize::MAX; straggler completes at the 1st or 2nd yield of the reader", covers=2),
+            B("c05b_straggler_snapshot", "state A: is_empty false; data_with never hands a block out while a claimed slot is unpublished; hands out the k tail values then ALL 64 of the old block in push order; takes nothing",
+              bound="one designed state: k in {0,1}, old write in 64..=usize::MAX; straggler completes at the 1st or 2nd yield of the reader", covers=2),
+            B("c05b_inflight_tail", "state B (tail block write=3, read=0b101: middle slot in flight): clear_with / data_with wait and hand out all 3 values in slot order, never the published prefix [1] alone",
+              bound="one designed state; straggler completes at the 1st or 2nd yield of the reader; defer_unchecked leaked", covers=2),
+            B("c05b_push_handover", "state H (tail block full, optionally slot 63 unpublished): ONE real push installs a new tail whose next is the old tail, the value is the only element of the new tail, the old block keeps its 64 slots (write 65, read untouched), push does not wait; a following data_with hands out [v] then all 64",
+              bound="one designed state: stalled in {false,true}, any v", covers=2),
+            B("c05b_handover_publication", "PUBLICATION: at the moment the real push compare-exchanges a fresh block into a non-null tail, that block's next already equals the tail it replaces (a block becomes reachable only fully linked: no window in which is_empty / data_with / clear_with miss the old block's completed values); checked inside a stub of the AtomicUsize compare_exchange under crossbeam's Atomic",
+              bound="one designed state (full tail block, slot 63 published or in flight), one real push; CAS stub performs compare+store sequentially", covers=2),
+            B("c05b_is_empty_states", "is_empty is false on: fresh empty tail + full old block; fresh tail + old block with 63 published; tail with a claimed unpublished slot + full old block; single block with k published values",
+              bound="four designed states; k in 1..=64, write up to 66", covers=5),
+            B("c05b_seq_data_vec", "data() (Vec snapshot) == pushed values in push order; empty bucket -> empty Vec",
+              bound="n <= 2 pushes; sequential", covers=2, tier="thorough", timeout=1200),
         ],
     }],
 }
